@@ -120,30 +120,42 @@ def part(prop, out, with_render=False):
     return ev
 
 
+ENUM_SETS = {1: [['NORTH'], ['type']],
+             2: [['type', 'typeName'], ['INACTIVE', 'IN_PROGRESS'], ['NORTH', 'south_east']],
+             3: [['name', 'type', 'typeName'], ['DONE', 'INACTIVE', 'IN_PROGRESS'], ['NORTH', 'south_east', 'type']]}
+
+
 def confirm_enum_literals(C, model):
     """replay of kernels.k_enum_definition in a consumer crate: every schema value must deserialize to its own variant
-    (not `Other`) and serialize back to itself, under the model's normalization.  Uses the model's value names, or - when
-    those are not GraphQL names - names every naming convention changes."""
+    (not `Other`, and the variant named after it) and serialize back to itself, under the model's normalization.  The
+    case conversions and the byte order of names are abstract in the kernel, so besides the model's value names (when
+    they are GraphQL names) a few sets are tried on which conventions and orders disagree."""
     import re
     name_ok = re.compile(r'^[_A-Za-z][_0-9A-Za-z]*$')
-    vals = model['values']
-    if not (all(name_ok.match(v) for v in vals) and len(set(vals)) == len(vals)):
-        vals = ['NORTH', 'south_east', 'type'][:len(vals)]
-    sdl = f"enum E {{ {' '.join(vals)} }}\ntype Query {{ e: E }}\n"
+    vals0 = model['values']
+    sets = [vals0] if (all(name_ok.match(v) for v in vals0) and len(set(vals0)) == len(vals0)) else []
+    sets += ENUM_SETS.get(len(vals0), [])
     rust = model.get('normalization') == 'Rust'
-    rp = dict(kind='enum-literals', sdl=sdl, values=vals, model=model)
-    err = C.build(sdl, 'query Q { e }\n', 'Q', 'q', attrs='normalization = "rust", ' if rust else '')
-    if err:
-        return None, 'consumer crate does not compile: ' + err[-300:].replace('\n', ' | '), rp
-    payloads = [{'e': v} for v in vals]
-    for p_, (st, val), (st2, dbg) in zip(payloads, C.run('response', payloads), C.run('debug', payloads)):
+    norm = lambda x: x.replace('_', '').lower()
+    rp = None
+    for vals in sets:
+        sdl = f"enum E {{ {' '.join(vals)} }}\ntype Query {{ e: E }}\n"
+        rp = dict(kind='enum-literals', sdl=sdl, values=vals, model=dict(model, values=vals))
+        err = C.build(sdl, 'query Q { e }\n', 'Q', 'q', attrs='normalization = "rust", ' if rust else '')
+        if err:
+            return None, 'consumer crate does not compile: ' + err[-300:].replace('\n', ' | '), rp
+        payloads = [{'e': v} for v in vals]
         where = f"enum E {{ {' '.join(vals)} }} under normalization {model.get('normalization')}"
-        if st != 'ok' or st2 != 'ok':
-            return False, f'{where}: the schema value {p_["e"]!r} is rejected: {val}', rp
-        if val.get('e') != p_['e']:
-            return False, f'{where}: the schema value {p_["e"]!r} re-serializes as {json.dumps(val)}', rp
-        if 'Other(' in dbg:
-            return False, f'{where}: the schema value {p_["e"]!r} deserializes to the catch-all variant ({dbg}) instead of its own', rp
+        for p_, (st, val), (st2, dbg) in zip(payloads, C.run('response', payloads), C.run('debug', payloads)):
+            if st != 'ok' or st2 != 'ok':
+                return False, f'{where}: the schema value {p_["e"]!r} is rejected: {val}', rp
+            if val.get('e') != p_['e']:
+                return False, f'{where}: the schema value {p_["e"]!r} re-serializes as {json.dumps(val)}', rp
+            if 'Other(' in dbg:
+                return False, f'{where}: the schema value {p_["e"]!r} deserializes to the catch-all variant ({dbg}) instead of its own', rp
+            mv = re.search(r'Some\((\w+)\)', dbg)
+            if mv and norm(mv.group(1)) != norm(p_['e']):
+                return False, f'{where}: the schema value {p_["e"]!r} deserializes to the variant `{mv.group(1)}`, which is named after another value', rp
     return True, 'schema values map to their own variants and back', rp
 
 
